@@ -285,6 +285,12 @@ fn main() {
         writeln!(g, "    async fn {m}(&self, req: &mut S3Request<{i}>) -> S3Result<()> {{ self.on_typed(\"{n}\", req.credentials.as_ref()) }}", m = op.method, i = op.input, n = op.name).unwrap();
     }
     writeln!(g, "}}").unwrap();
+    // a hook that INHERITS `check` from the trait (the adapter's documented default) and records only the typed hooks
+    writeln!(g, "#[async_trait::async_trait]\nimpl S3Access for InheritAccess {{").unwrap();
+    for op in &ops {
+        writeln!(g, "    async fn {m}(&self, req: &mut S3Request<{i}>) -> S3Result<()> {{ self.0.on_typed(\"{n}\", req.credentials.as_ref()) }}", m = op.method, i = op.input, n = op.name).unwrap();
+    }
+    writeln!(g, "}}").unwrap();
     std::fs::write(Path::new(&out_dir).join("ops_gen.rs"), g).unwrap();
 
     // ---------------------------------------------------------------- dto_gen.rs (G1)
